@@ -3325,8 +3325,8 @@ srtp_err_status_t srtp_create(srtp_t *session, /* handle for session     */
     /* allocate stream list */
     stat = srtp_stream_list_alloc(&ctx->stream_list);
     if (stat) {
-        /* clean up everything */
-        srtp_dealloc(*session);
+        /* there is no stream list yet, so only the context is released */
+        srtp_crypto_free(ctx);
         *session = NULL;
         return stat;
     }
